@@ -116,7 +116,7 @@ def parse40 (s : Bytes) : Res O40 :=
     | [] => .err eTooShort                      -- loop body never runs; `slci == 0`
     | c :: rest =>
       if c = SLASH then loop4 O40.set (splitSlash rest) O40.zero (flatOrder GenV40.tbl_order)
-      else .err eValue                          -- first element has no leading `/`
+      else .err eHeader                         -- the header must be followed by the separator
   else .err eHeader
 
 /-! ## v2.0 -/
